@@ -64,6 +64,9 @@ let () =
           if not pod then List.iter (fun p -> print_string ("SUPPORT " ^ show p ^ "\n")) (support_outputs cfg)
         with e -> print_string ("ERR " ^ Printexc.to_string e ^ "\n"));
         print_string "END\n"
+      | ["FACTS"] ->
+        print_string ("BEGIN\nFACT c_pod_selfsufficient " ^ (if c_pod_selfsufficient then "1" else "0") ^ "\nFACT q_union_live "
+                      ^ (if q_union_live then "1" else "0") ^ "\nEND\n")
       | [""] | [] -> ()
       | _ -> print_string ("BEGIN\nERR bad request: " ^ line ^ "\nEND\n")
     done
